@@ -184,23 +184,25 @@ LIQ = ("exp(54.842763 - 6763.22 / T - 4.21 * log(T) + 0.000367 * T + tanh(0.0415
        " * (53.878 - 1331.22 / T - 9.44523 * log(T) + 0.014025 * T))")
 c_ice = contract(M + "e_eq_ice_mk", prop=P, params=dict(T="real"), elementwise=True,
                  raises=[("T <= 0", ValueError)],
-                 ensures=["result == " + ICE, "result > 0"],
+                 ensures=["result == " + ICE, "result > 0"], hidden=[0],
                  canaries=["result > 1"])
 c_liq = contract(M + "e_eq_water_mk", prop=P, params=dict(T="real"), elementwise=True,
                  raises=[("T <= 0", ValueError)],
-                 ensures=["result == " + LIQ, "result > 0"])
+                 ensures=["result == " + LIQ, "result > 0"], hidden=[0])
 c_ice.domain = c_liq.domain = {"T": (-50.0, 400.0)}
 
 TT = "constants.triple_point_water"
 c_mix = contract(M + "e_eq_mixed_mk", prop=P, params=dict(T="real"), elementwise=True,
                  raises=[("T <= 0", ValueError)],
                  ensures=["result == ite(T > %s, e_eq_water_mk(T), ite(T < %s - 23, e_eq_ice_mk(T), "
-                          "e_eq_ice_mk(T) + (e_eq_water_mk(T) - e_eq_ice_mk(T)) * ((T - %s + 23) / 23)**2))" % (TT, TT, TT)])
+                          "e_eq_ice_mk(T) + (e_eq_water_mk(T) - e_eq_ice_mk(T)) * ((T - %s + 23) / 23)**2))" % (TT, TT, TT),
+                          "result > 0"], hidden=[0])
 c_mix.domain = {"T": (-50.0, 400.0)}
 
 
 @theorem(P, "mixed-phase")
 def thm_mixed(T: "real"):
+    reveal(A.e_eq_mixed_mk)
     requires(T > 0)
     Tt = constants.triple_point_water
     m = A.e_eq_mixed_mk(T)
@@ -224,6 +226,7 @@ def thm_reject(T: "real"):
 
 @theorem(P, "ice-increasing")
 def thm_ice_increasing(T1: "real", T2: "real"):
+    reveal(A.e_eq_ice_mk)
     requires(100 <= T1, T1 < T2, T2 <= 400)
     ensures(A.e_eq_ice_mk(T1) < A.e_eq_ice_mk(T2), id="e_eq_ice_mk strictly increasing on [100,400] K")
 
